@@ -421,7 +421,7 @@ def main(tier, seed):
         plan = [(g, 2, [0]) for g in g2] + \
                [(g, 1, [0, 1]) for g in g2] + \
                [(g, 2, ["slim", 0, 1]) for g in g2[:8]] + \
-               [(g, 2, ["slim", 0]) for g in g3] + \
+               [(g, 2, ["slim", 0]) for g in g3[::2]] + \
                [(g, 3, ["slim", 0]) for g in (((1,), (0,)),)] + \
                [(g, 1, [0, 1]) for g in families()]
     else:
@@ -452,8 +452,9 @@ def main(tier, seed):
     core.finish(
         PID, tier, seed, agg, t0,
         rule=(f"{len(plan)} (graph, depth, importer targets) plans: all "
-              f"{len(g2)} digraphs on 2 modules and all {len(g3)} digraphs "
-              f"on 3 modules (self loops " +
+              f"{len(g2)} digraphs on 2 modules and " +
+              ("all" if tier == "thorough" else "every second of the") +
+              f" {len(g3)} digraphs on 3 modules (self loops " +
               ("included" if tier == "thorough" else "excluded on 3") +
               f"), chain/cycle/diamond/fan-out/fan-in/tail+cycle families "
               f"on 4 and 5 modules; importer alphabet = {len(commands(((),), [0])) - 1} commands per "
